@@ -104,6 +104,10 @@ class Extractor:
                 pass
             elif isinstance(s, ast.Pass):
                 pass
+            elif isinstance(s, ast.Assign) and len(s.targets) == 1 and isinstance(s.targets[0], ast.Name) and self.buf not in U(s.value) \
+                    and not any(self.sibling(x) for x in ast.walk(s.value)) and not any(v in U(s.value) for v in self.acc_vars):
+                # a local name for a value that later writes use: ('let', name, text, const, node)
+                out.append(("let", s.targets[0].id, U(s.value), self.fold(s.value), s))
             else:
                 out.append(("other", U(s), s))
         return out
@@ -112,9 +116,37 @@ class Extractor:
         fn = self.methods[name]
         self.params = {a.arg for a in fn.args.args if a.arg != "self"}
         try:
-            return self.extract(body_without_doc(fn))
+            items = self.extract(body_without_doc(fn))
         finally:
             self.params = set()
+        # a local bound once in the whole method is an opaque name (as any other statement the extractor does not model);
+        # only locals that are re-bound keep their 'let' items, so that each use can be read with the value current there
+        cnt = {}
+
+        def count(its):
+            for it in its:
+                if it[0] == "let":
+                    cnt[it[1]] = cnt.get(it[1], 0) + 1
+                elif it[0] == "rep":
+                    count(it[3])
+                elif it[0] == "alt":
+                    count(it[2])
+                    count(it[3])
+
+        def demote(its):
+            out = []
+            for it in its:
+                if it[0] == "let" and cnt.get(it[1], 0) < 2:
+                    out.append(("other", U(it[4]), it[4]))
+                elif it[0] == "rep":
+                    out.append(("rep", it[1], it[2], demote(it[3]), it[4]))
+                elif it[0] == "alt":
+                    out.append(("alt", it[1], demote(it[2]), demote(it[3])))
+                else:
+                    out.append(it)
+            return out
+        count(items)
+        return demote(items)
 
 
 def negate(cond):
